@@ -50,6 +50,7 @@ var targets = []string{
 	"bitmap.Rank64", "bitmap.Rank128",
 	"bitstr.Len",
 	"bmtree.PathToIndex", "bmtree.PathToIndexLoose",
+	"bitmap.FromStr32", "bmtree.PathOf",
 	"iohelper.SectionWriter.Seek", "iohelper.SectionWriter.Size",
 	// expected to be unsupported (loops): they document the bail-out
 	"bmtree.shiftMulti", "bmtree.IndexToPath", "bitmap.IndexRank64",
@@ -1165,6 +1166,7 @@ func run() int {
 	mod := flag.String("mod", "", "module path (tests)")
 	pk := flag.String("pkgs", "", "packages (tests)")
 	tg := flag.String("targets", "", "targets (tests)")
+	all := flag.Bool("all", false, "try every function of the loaded packages (exploration: which functions are translatable?)")
 	flag.Parse()
 	if *mod != "" {
 		modPath = *mod
@@ -1241,6 +1243,16 @@ func run() int {
 		}
 	}
 
+	if *all {
+		var ns []string
+		for n, fn := range byName {
+			if fn.Pkg != nil && strings.HasPrefix(fn.Pkg.Pkg.Path(), modPath+"/") && fn.Synthetic == "" && !strings.Contains(n, "$") && !strings.HasSuffix(n, ".init") {
+				ns = append(ns, n)
+			}
+		}
+		sort.Strings(ns)
+		targets = ns
+	}
 	// callees first
 	isTarget := map[string]bool{}
 	for _, n := range targets {
